@@ -115,25 +115,33 @@ def run(ctx: Context) -> None:
         b2 = ctx.func(f"{GRID}.CFGrid2DTopology._get_or_make_bounds")
         flow1, flow2 = ctx.flow(b1), ctx.flow(b2)
 
-        def guard_text(fi):
-            out = []
-            for n in walk_no_nested(fi.node):
-                if isinstance(n, ast.With):
-                    for st in n.body:
-                        if isinstance(st, ast.If) and any(isinstance(s, ast.Return) for s in st.body):
-                            out.append(st)
-            return out
+        from .common import guards
 
-        g1 = guard_text(b1)
-        want1 = "len(bounds.dims) == 2 and bounds.dims[0] == coordinate.dims[0] and (self.dataset.sizes[bounds.dims[1]] == 2)"
-        ok = len(g1) == 1 and norm_text(g1[0].test) == want1 and all(norm_text(s.value) == 'bounds' for s in g1[0].body if isinstance(s, ast.Return))
-        ctx.check('R06.3', ok, "1-D stored bounds are used only when their dims are (coordinate dimension, 2)", b1, g1[0] if g1 else b1.node,
-                  construct=f"guard: {norm_text(g1[0].test) if g1 else 'absent'}")
-        g2 = guard_text(b2)
-        want2 = "len(bounds.dims) == 3 and bounds.dims[0] == self.y_dimension and (bounds.dims[1] == self.x_dimension) and (self.dataset.sizes[bounds.dims[2]] == 4)"
-        ok = len(g2) == 1 and norm_text(g2[0].test) == want2
-        ctx.check('R06.3', ok, "2-D stored bounds are used only when their dims are (y, x, 4)", b2, g2[0] if g2 else b2.node,
-                  construct=f"guard: {norm_text(g2[0].test) if g2 else 'absent'}")
+        def stored_return(fi, fl):
+            """(return statement handing back the stored bounds, the bounds variable name, its atomic guards)."""
+            for r in fi.returns():
+                v = fl.resolve(r.value)
+                rv = r.value
+                while isinstance(rv, ast.Call) and dotted(rv.func) in ('cast', 'typing.cast') and len(rv.args) == 2:
+                    rv = rv.args[1]
+                if isinstance(v, ast.Subscript) and isinstance(fl.resolve(v.slice), ast.Subscript) and const_value(fl.resolve(v.slice).slice, None) == 'bounds' \
+                        and isinstance(rv, ast.Name):
+                    return r, rv.id, guards(fi, r)
+            return None, None, []
+
+        r1, bn1, gd1 = stored_return(b1, flow1)
+        want1 = {(f"len({bn1}.dims) == 2", True), (f"{bn1}.dims[0] == coordinate.dims[0]", True), (f"self.dataset.sizes[{bn1}.dims[1]] == 2", True)}
+        g1 = [r1] if r1 is not None else []
+        ok = r1 is not None and set(gd1) == want1
+        ctx.check('R06.3', ok, "1-D stored bounds are used only when their dims are (coordinate dimension, 2)", b1, r1 or b1.node,
+                  construct=f"guard: {sorted(t for t, _ in gd1) if r1 is not None else 'absent'}")
+        r2, bn2, gd2 = stored_return(b2, flow2)
+        want2 = {(f"len({bn2}.dims) == 3", True), (f"{bn2}.dims[0] == self.y_dimension", True), (f"{bn2}.dims[1] == self.x_dimension", True),
+                 (f"self.dataset.sizes[{bn2}.dims[2]] == 4", True)}
+        g2 = [r2] if r2 is not None else []
+        ok = r2 is not None and set(gd2) == want2
+        ctx.check('R06.3', ok, "2-D stored bounds are used only when their dims are (y, x, 4)", b2, r2 or b2.node,
+                  construct=f"guard: {sorted(t for t, _ in gd2) if r2 is not None else 'absent'}")
         # 1-D synthesis
         it, src = interpret(ctx, b1, {'coordinate': ('cv', [N])}, {})
         val = it.returns[0][1] if it.returns else None
